@@ -169,3 +169,186 @@ Example c11_gen_nonvacuous :
   /\ resolve_gen [103;111;58;122] = CErr            (* "go:z" *)
   /\ resolve_gen [99;111;98;111;108] = CErr.        (* "cobol" *)
 Proof. vm_compute. repeat split. Qed.
+
+(** * The validation pass and include resolution (Model/CompilerValidate.v)
+
+    [cvalidate] transcribes Frugal.validate and everything it calls, [cparse] parser.parseFrugal
+    over a file system of parse results, both over C10's parse-tree types and both returning the
+    exact text of the Go diagnostic (Judge/JCompilerValidate.v replays them on every tree the real
+    parser produced and compares the text).  Go loops without a syntactic bound take fuel. *)
+From Coq Require Import String List.
+From FV Require Import Base.Res Model.ParserStrings Model.ParserAst Model.ParserFiles
+     Model.CompilerValidate Proofs.CompilerValidateProofs.
+
+(** c11_validate_total: on EVERY parse tree whose names are what the grammar can produce (service,
+    method, scope and operation names not empty; typedef targets not starting with a dot) and
+    whose includes have been validated (parseFrugal validates a file after its includes), with
+    fuel at least [validate_fuel] = 1 + typedefs of the file and of what it includes + files +
+    services of the file, validation returns or reports an error: no panic, no fuel exhaustion *)
+Theorem c11_validate_total : forall fuel f incs,
+  file_names_ok f -> incs_wellvalidated incs -> (validate_fuel f incs <= fuel)%nat ->
+  graceful (vr_res (cvalidate fuel f incs)).
+Proof. exact cvalidate_total_res. Qed.
+Print Assumptions c11_validate_total.
+
+(** both hypotheses on the names are needed (the grammar produces neither tree) *)
+Theorem c11_validate_total_needs_names_refuted :
+  (forall fuel, cvalidate fuel w_empty_name [] = RPanic)
+  /\ cvalidate (validate_fuel w_dot_typedef []) w_dot_typedef [] = RFuel
+  /\ cvalidate 500 w_dot_typedef [] = RFuel.
+Proof. exact names_needed_refuted. Qed.
+Print Assumptions c11_validate_total_needs_names_refuted.
+
+(** the loop [for progress := true; progress;] of validateTypedefs ends within
+    (number of typedefs + 1) passes, and what it computes is the marking C11's typedef theorems
+    are about *)
+Theorem c11_marking_loop_bound : forall rf fuel,
+  (S (length (CompilerTotal.typedefs rf)) <= fuel)%nat ->
+  mark_loop fuel rf [] = Some (CompilerTotal.mark_all rf).
+Proof. exact mark_loop_total. Qed.
+Print Assumptions c11_marking_loop_bound.
+
+(** the walk of validateServiceExtends ends within (number of services + 1) steps, whatever the
+    services *)
+Theorem c11_extends_walk_bound : forall f incs start,
+  In start (fr_services f) -> forall fuel, (S (length (fr_services f)) <= fuel)%nat ->
+  graceful (vr_res (extends_walk fuel f incs start start [])).
+Proof. exact extends_walk_bound. Qed.
+Print Assumptions c11_extends_walk_bound.
+
+(** c11_parse_total: parseFrugal on EVERY file system of parse results (any include graph,
+    cycles included, missing files, syntax errors, any trees with grammatical names), with fuel
+    above the number of files: a diagnostic or a tree, never a panic or fuel exhaustion; and a
+    tree it returns is validated all the way down *)
+Theorem c11_parse_total : forall fs root,
+  fs_names_ok fs ->
+  graceful (pres_res (cparse_program fs root))
+  /\ forall t, cparse_program fs root = POk t -> wellvalidated (reduce_tree t).
+Proof. exact cparse_total_res. Qed.
+Print Assumptions c11_parse_total.
+
+Theorem c11_parse_fuel_bound : forall fs, fs_names_ok fs -> forall fuel p visited,
+  NoDup visited -> incl visited (stems fs) -> (length fs - length visited < fuel)%nat ->
+  graceful (pres_res (cparse fuel fs p visited)).
+Proof. exact cparse_fuel_bound. Qed.
+Print Assumptions c11_parse_fuel_bound.
+
+(** ** what the generators rely on after validation *)
+
+(** every type reference resolves: each typedef target, constant type, field type, return /
+    argument / exception type and operation type is a base type, a container of resolving
+    types, or names a struct, union, exception, enum or typedef of the file, or of the include
+    its prefix names *)
+Theorem c11_validated_types_resolve : forall fuel f incs,
+  (S (length (fr_typedefs f)) <= fuel)%nat -> cvalidate fuel f incs = ROk ->
+  forall t, In t (map td_type (fr_typedefs f) ++ file_uses f
+                  ++ flat_map (fun s => map o_type (sc_ops s)) (fr_scopes f)) ->
+            resolves (reduce f incs) (ty_of t).
+Proof. exact validated_types_resolve. Qed.
+Print Assumptions c11_validated_types_resolve.
+
+(** every typedef chain of an accepted program is acyclic: UnderlyingType returns on every type
+    within the weight of the tree (typedefs + files).  (That the end of the chain is a base,
+    container, struct or enum NAME THE ASKING FILE CAN RESOLVE is false through an include's
+    include: c11_classification_total_refuted above, findings K1-K3, K9.) *)
+Theorem c11_validated_typedefs_acyclic : forall fs root t,
+  fs_names_ok fs -> cparse_program fs root = POk t ->
+  forall ty, ty <> CompilerTotal.TNil ->
+  exists u, CompilerTotal.underlying (CompilerTotal.weight (reduce_tree t)) (reduce_tree t) ty
+            = CompilerTotal.COk u.
+Proof. exact accepted_typedefs_terminate. Qed.
+Print Assumptions c11_validated_typedefs_acyclic.
+
+(** one validated file over validated includes satisfies the hypothesis of
+    c11_underlying_terminates *)
+Theorem c11_validated_wellvalidated : forall fuel f incs,
+  (S (length (fr_typedefs f)) <= fuel)%nat ->
+  forallb (fun td => CompilerTotal.name_ok (type_name (td_type td))) (fr_typedefs f) = true ->
+  incs_wellvalidated incs ->
+  cvalidate fuel f incs = ROk -> wellvalidated (reduce f incs).
+Proof. exact cvalidate_wellvalidated. Qed.
+Print Assumptions c11_validated_wellvalidated.
+
+(** every extends chain resolves and is acyclic: [extends_ok] is an inductive (hence finite)
+    chain of services each found in the file, ending in a service without extends or in a
+    service found in the include the name is qualified with *)
+Theorem c11_validated_extends : forall fuel f incs,
+  (S (length (fr_typedefs f)) <= fuel)%nat -> cvalidate fuel f incs = ROk ->
+  forall s, In s (fr_services f) -> extends_ok f incs s.
+Proof. exact validated_extends. Qed.
+Print Assumptions c11_validated_extends.
+
+(** the code before the repair: a dangling extends and an extends cycle passed validation *)
+Theorem c11_validated_extends_refuted :
+  (cvalidate_pinned 10 (with_services [w_dangling]) [] = ROk
+   /\ ~ extends_ok (with_services [w_dangling]) [] w_dangling
+   /\ exists m, cvalidate 10 (with_services [w_dangling]) [] = RErr m)
+  /\ (cvalidate_pinned 10 (with_services [w_cyc_a; w_cyc_b]) [] = ROk
+      /\ ~ extends_ok (with_services [w_cyc_a; w_cyc_b]) [] w_cyc_a
+      /\ exists m, cvalidate 10 (with_services [w_cyc_a; w_cyc_b]) [] = RErr m).
+Proof. exact extends_pinned_refuted. Qed.
+Print Assumptions c11_validated_extends_refuted.
+
+(** every throws type is an exception: its underlying type names an exception of the file or of
+    the include its prefix names *)
+Theorem c11_validated_throws_exceptions : forall fuel f incs,
+  (S (length (fr_typedefs f)) <= fuel)%nat -> cvalidate fuel f incs = ROk ->
+  forall s m a, In s (fr_services f) -> In m (sv_methods s) -> In a (m_throws m) ->
+  is_exception fuel f incs (reduce f incs) (f_type a) = Some true.
+Proof. exact validated_throws. Qed.
+Print Assumptions c11_validated_throws_exceptions.
+
+Theorem c11_validated_throws_refuted :
+  cvalidate_pinned 10 w_throws [] = ROk
+  /\ is_exception 10 w_throws [] (reduce w_throws []) (ty0 "S") = Some false
+  /\ exists m, cvalidate 10 w_throws [] = RErr m.
+Proof. exact throws_pinned_refuted. Qed.
+Print Assumptions c11_validated_throws_refuted.
+
+(** field ids and field names of every struct, union and exception are pairwise distinct; a
+    oneway method returns nothing and throws nothing; a constant that is an identifier names a
+    constant or an enum value that exists *)
+Theorem c11_validated_members : forall fuel f incs,
+  (S (length (fr_typedefs f)) <= fuel)%nat -> cvalidate fuel f incs = ROk ->
+  (forall s, In s (fr_structs f ++ fr_unions f ++ fr_exceptions f) ->
+             NoDup (map f_id (s_fields s)) /\ NoDup (map f_name (s_fields s)))
+  /\ (forall s m, In s (fr_services f) -> In m (sv_methods s) -> m_oneway m = true ->
+                  m_return m = None /\ m_throws m = [])
+  /\ (forall c name, In c (fr_constants f) -> c_value c = CIdent name -> check_identifier f incs name = ROk).
+Proof. exact validated_members. Qed.
+Print Assumptions c11_validated_members.
+
+Theorem c11_validated_dup_names_refuted :
+  cvalidate_pinned 10 w_dupname [] = ROk
+  /\ (forall s, In s (fr_structs w_dupname) -> ~ NoDup (map f_name (s_fields s)))
+  /\ exists m, cvalidate 10 w_dupname [] = RErr m.
+Proof. exact dup_names_pinned_refuted. Qed.
+Print Assumptions c11_validated_dup_names_refuted.
+
+(** every constant value fits its declared type: FALSE of the code as it is (finding C11-K13):
+    const list<i32> x = 5, const i32 y = "hello", const list<i32> z = [nope] pass validation *)
+Theorem c11_validated_constants_fit_refuted :
+  cvalidate 10 w_consts [] = ROk
+  /\ forallb (fun c => shape_fits (c_type c) (c_value c)) (firstn 2 (fr_constants w_consts)) = false
+  /\ check_identifier w_consts [] (T "nope") <> ROk.
+Proof. exact constants_fit_refuted. Qed.
+Print Assumptions c11_validated_constants_fit_refuted.
+
+(** circular includes are detected by bare file name: a file that includes a DIFFERENT file of
+    the same name (no cycle; the included file parses on its own) is rejected as circular
+    (finding C11-K14) *)
+Theorem c11_include_same_name_refuted :
+  pfs_get w_same_name [T "sub"; T "x.frugal"] = Some (FParsed empty_frugal)
+  /\ cparse_program w_same_name [T "sub"; T "x.frugal"] = POk (FTree (T "x") empty_frugal [])
+  /\ cparse_program w_same_name [T "x.frugal"] = PErr (T "Include sub/x.frugal: Circular include: [x x]").
+Proof. exact include_same_name_refuted. Qed.
+Print Assumptions c11_include_same_name_refuted.
+
+Example c11_validation_nonvacuous :
+  fs_names_ok ex_fs
+  /\ match cparse_program ex_fs [T "root.frugal"] with
+     | POk (FTree name f incs) => name = T "root" /\ length incs = 1%nat
+                                  /\ cvalidate (validate_fuel f incs) f incs = ROk
+     | _ => False
+     end.
+Proof. exact validation_nonvacuous. Qed.
